@@ -106,6 +106,10 @@ type c20Target struct {
 	// BreakBody: a failing probe is not a refused connection but an answer with status 200 whose body breaks off
 	// after a part of the samples (the connection is lost mid-body)
 	BreakBody bool `json:"breakBody,omitempty"`
+	// RetryAfter: a failing probe is answered 503 (or 429) with "Retry-After: 120" - the explorer's retry interval is
+	// what counts.  SlowRetryMs: the probes after the first take that long (several retry intervals)
+	RetryAfter  bool `json:"retryAfter,omitempty"`
+	SlowRetryMs int  `json:"slowRetryMs,omitempty"`
 	// CType: Content-Type of the target's answers: "" = text/plain, "none" = no header, otherwise as given
 	CType string `json:"ctype,omitempty"`
 	// Exemplars: an OpenMetrics answer ends with that many samples that carry an exemplar, alternately without and
@@ -182,6 +186,9 @@ func (f *farm) RoundTrip(r *http.Request) (*http.Response, error) {
 	hold := 1
 	if sp != nil {
 		hold = sp.HoldMs
+		if n > 1 && sp.SlowRetryMs > 0 {
+			hold = sp.SlowRetryMs
+		}
 	}
 	time.Sleep(time.Duration(hold) * time.Millisecond)
 	ok := sp != nil && sp.FailFirst >= 0 && n > sp.FailFirst
@@ -190,6 +197,13 @@ func (f *farm) RoundTrip(r *http.Request) (*http.Response, error) {
 	f.inflight[key]--
 	f.log = append(f.log, reqRec{Hash: h, Inc: inc, Start: start, End: end, OK: ok})
 	f.mu.Unlock()
+	if !ok && sp != nil && sp.RetryAfter {
+		code := 503
+		if sp.Hash%2 == 0 {
+			code = 429
+		}
+		return &http.Response{StatusCode: code, Status: fmt.Sprintf("%d busy", code), Body: ioutil.NopCloser(strings.NewReader("busy")), Header: http.Header{"Retry-After": []string{"120"}, "Content-Type": []string{"text/plain"}}, Request: r}, nil
+	}
 	if !ok && sp != nil && sp.BreakBody {
 		var b bytes.Buffer
 		for i := 0; i < (sp.Samples+1)/2; i++ {
@@ -604,6 +618,12 @@ func genC20(t *rapid.T) *c20Case {
 			Dropped: rapid.IntRange(0, 5).Draw(t, l+"-dropped"), HoldMs: rapid.IntRange(1, 3).Draw(t, l+"-hold"),
 			BreakBody: rapid.IntRange(0, 2).Draw(t, l+"-breakBody") == 0,
 			CType:     rapid.SampledFrom([]string{"", "", "none", "text/plain; version=0.0.4; charset=utf-8", "application/octet-stream"}).Draw(t, l+"-ctype")})
+		switch rapid.IntRange(0, 9).Draw(t, l+"-failStyle") {
+		case 0:
+			c.Targets[i].RetryAfter, c.Targets[i].BreakBody = true, false
+		case 1:
+			c.Targets[i].SlowRetryMs = 70 // three and a half retry intervals
+		}
 		if rapid.IntRange(0, 3).Draw(t, l+"-openmetrics") == 0 {
 			c.Targets[i].CType = "application/openmetrics-text; version=1.0.0; charset=utf-8"
 			c.Targets[i].Exemplars = rapid.IntRange(1, 4).Draw(t, l+"-exemplars")
